@@ -12,14 +12,14 @@ claimed = {
  "C10": ("exploration", "bounded exhaustive enumeration of byte strings and of all single-byte substitutions of valid frames",
    "All byte strings up to length 3, all strings up to length 6/7 over a 14-byte delimiter alphabet, all 2^24 SD2 headers with structured bodies, and every single-byte substitution of a set of valid frames are decoded by the real decoder; the clauses of the statement are checked on each verdict and on each string/prefix pair.",
    "Trusted: reference codec; NeedMore judged by announced length; longer random strings are not covered.", "6 C10"),
- "C16": ("model_checking", "exhaustive enumeration of chunkings (<=3 cut points) and call policies of the real receive helpers against a reference buffer model",
+ "C16": ("model_checking", "exhaustive enumeration of chunkings (<=3 cut points) and 6 call policies (incl. declined transmissions between the receive calls) of the real receive helpers against a reference buffer model",
    "Every telegram sequence of length <=3 over 8 telegram kinds is delivered in every chunking with up to 3 cut points to the real receive_telegram / receive_all_telegrams / poll_pending_received_bytes helpers over three PHYs (byte queue, BusSim, the repository's SimulatorPhy); every call is compared with a reference buffer model, and the end-to-end sequence with what was sent.",
    "Trusted: reference codec/buffer model; pairs/triples of cuts restricted to header/tail/stride positions for long streams.", "6 C16"),
  "C17": ("exploration", "bounded exhaustive enumeration of diagnostics PDUs through the public DP path against a reference block parser",
    "All 2^16 flag words, all PDU lengths 0..244 x buffer sizes, all 1- and 2-byte extended-diagnostics strings and all sequences of <=3 catalogue blocks cut at every length are delivered through DpMaster::receive_reply (three peripheral states) and DpScanner; flags/ident/master address, the storage rule and the block iteration (incl. Debug formatting) are compared with a reference parser.",
    "Trusted: reference block parser; length-1 blocks accepted either way; permanent bit may be stripped.", "6 C17"),
  "C03": ("model_checking", "explicit-state BFS over the joint state of the real DpMaster and reference slaves under an adversarial environment, with a bring-up phase automaton as oracle",
-   "Breadth-first search of the joint state space (real DpMaster + reference DP slaves + outstanding request + bring-up phase automaton) under all environment answers (answered, request/reply lost, token lost, power cycle, fault flags, 20 catalogue replies, user calls), deduplicated on a canonical fingerprint; plus an option grid that checks the Set_Prm/Chk_Cfg bytes against a reference encoding and all 65000 watchdog values.",
+   "Breadth-first search of the joint state space (real DpMaster + reference DP slaves + outstanding request + bring-up phase automaton) under all environment answers (answered, request/reply lost, token lost, power cycle, fault flags, 26 catalogue replies, user calls), deduplicated on a canonical fingerprint; plus an option grid that checks the Set_Prm/Chk_Cfg bytes against a reference encoding and all 65000 watchdog values.",
    "Trusted: reference slave and the emulated FDL reply admission; quick tier is depth-bounded (9 / 6), thorough runs to closure or cap.", "6 C03"),
  "C04": ("model_checking", "explicit-state BFS over real DpMaster x reference slave x process images for all boundary length pairs, images compared around every callback",
    "BFS for all 49 (output,input) length pairs from {0,1,2,8,9,243,244}^2 with user writes, input changes, lost replies and 14 malformed replies as transitions; pi_i/pi_q are read before and after every callback and compared with the wire bytes.",
@@ -28,25 +28,25 @@ claimed = {
    "From every state the BFS of the C03 world discovers, two deterministic continuations run on the real master: fault-free (must reach running + DataExchanged within 12+4*(retry+1) requests per peripheral and stay) and silence-then-return of peripheral 0 (Offline, then Online, Configured, running).",
    "Trusted: reference slave incl. FCB retry detection; the bound B is from DESIGN 6 C07.", "6 C07"),
  "C08": ("model_checking", "explicit-state BFS with a per-destination frame-count-bit monitor as history variables",
-   "BFS over the joint state incl. the per-destination FCB/retry monitor for max_retry_limit 1,2(,3,15) and 1..3 peripherals with user calls at every point; the oracle reads only function-code bytes, SAPs and Offline events.",
+   "BFS over the joint state incl. the per-destination FCB/retry monitor for max_retry_limit 1,2(,3,15) and 1..3 peripherals with user calls at every point, plus a narrow-alphabet loss-run world for EVERY admissible retry limit 1..15; the oracle reads only function-code bytes, SAPs and Offline events.",
    "Trusted: the notion of an 'acceptable reply' per service encoded in the monitor (diag: well-formed diag response; Set_Prm/Chk_Cfg: SC; Data_Exchange: OK/DL/DH of the configured length or SC).", "6 C08"),
  "C14": ("model_checking", "explicit-state BFS with cycle/turn monitor and life-cycle automata as history variables, events taken after every callback",
    "BFS for 0..4 peripherals in Vec and fixed[4] storage, global control once or every visit, high-priority-only visits, with lost/rejected replies, power cycles, long token absences and user calls; slot order, one turn per cycle, cycle_completed accounting and the event life-cycle vs is_live()/is_running() are checked at every callback; hangs by watchdog.",
    "Trusted: reference slave; sparse storage slots cannot be produced through the public API and are not generated.", "6 C14"),
  "C05": ("model_checking", "explicit-state BFS of a real FdlActiveStation (and of a real DpMaster) against an adversarial telegram alphabet, with a formatting logger, debug assertions and overflow checks on; hang watchdog",
    "Every symbol of an adversarial alphabet (~75: tokens between own/neighbour/stranger/invalid addresses, status requests and replies, SC, data requests/replies, garbage, truncated frames, collisions, waits, set_offline/set_online) is applied in every reachable state of the real station up to the depth bound, for several (TS,HSA,gap) configurations, base situations and application sets ((), LiveList, DpScanner, poll_multi with 2 and 0 apps); the DP master is explored in direct drive for 0..3 peripherals. Oracle: no panic (message+location), no hang (20 s watchdog), with a logger that formats every record.",
-   "Depth-bounded (quick 3 / thorough 6 for the FDL worlds); DpMaster under a real FDL station is covered by C15; PHY-level effects beyond BusSim are not modelled.", "6 C05"),
+   "Depth-bounded (quick 3 / thorough 6 for the FDL worlds; coarse-poll burst worlds depth 2 / 4); DpMaster under a real FDL station is explored by re-execution with <=2 deviations from the conforming slave; PHY-level effects beyond BusSim are not modelled.", "6 C05"),
  "C11": ("model_checking", "explicit-state BFS of a real FdlActiveStation against an adversarial peer with a token hand-over monitor automaton",
    "BFS from four base situations (listening, two- and three-station ring, alone with the token) for TS in {3,0,HSA-1} and two poll grids over an alphabet of tokens between predecessor/successor/stranger/own/invalid addresses, status traffic, SC, a garbage byte and three silence lengths; the monitor justifies every initiated transmission (token from the registered predecessor, second offer, own claim), and checks the pass supervision (repeat only after a silent slot, at most two repeats, then removal; none after something was heard).",
    "Monitor leniencies documented in DESIGN 6 C11 (burst subtleties, undecodable bytes after a pass, claim timing belongs to C01).", "6 C11"),
  "C01": ("model_checking", "exhaustive enumeration of ring configurations x poll schedules (default + every placement of one poll stall) on real stations over a byte-accurate bus, with a trace monitor",
-   "Every configuration of the small-scope domain (2..5 stations incl. adjacent, wrap-around, HSA-1, address 0; HSA, gap factor, baud, slot time, per-station poll period/phase patterns, application loads, late joiners at several offsets) is executed to the horizon on real FdlActiveStations over BusSim; on selected configurations every placement of a Tslot/4 poll stall at every effective poll is explored by forking the cloned world. The trace monitor checks R1 no overlap, R2 idle times (33 bit / 11 bit, 1 us tolerance) and R3 permission to transmit (holder, own retry after a silent slot, reply to a request addressed to the sender, claim after the own time-out).",
-   "Excluded per DESIGN 5.3: unsynchronised cold-start claim race, stale PHY buffers. Schedules are grid-based with <=1 stall; BusSim is the timing reference.", "6 C01"),
+   "Every configuration of the small-scope domain (2..5 stations incl. adjacent, wrap-around, HSA-1, address 0; HSA, gap factor, baud, slot time, per-station poll period/phase patterns, application loads incl. 249-byte telegrams, target rotation times, late joiners at several offsets) is executed to the horizon on real FdlActiveStations over BusSim; on selected configurations every placement of a Tslot/4 poll stall at every effective poll is explored by forking the cloned world. The trace monitor checks R1 no overlap, R2 idle times (33 bit / 11 bit, 1 us tolerance) and R3 permission to transmit (holder, own retry after a silent slot, reply to a request addressed to the sender, claim after the own time-out).",
+   "Excluded per DESIGN 5.3: unsynchronised cold-start claim race, stale PHY buffers. Schedules are grid-based (staggered and equal phases) with <=1 stall (thorough: 2 stalls on a few two-station configurations); BusSim is the timing reference.", "6 C01"),
  "C02": ("model_checking", "same execution space as C01 with a convergence/stability oracle, plus complete closure of the LAS bookkeeping state space with a from-anywhere differential oracle",
    "(a) every configuration/schedule of the C01 space without loads: by the bound T_conv of DESIGN 5.4 every online station is in the ring, every LAS equals the online set, NS/PS are the cyclic neighbours, tokens circulate in ascending order without repeats, and this stays true over the stability window (sampled every 3 slot times). (b) the real TokenRing type is closed under all witness/claim/set/remove operations over an 8-address universe for TS in {0,2,5} (672 states); neighbours invariant in every state, invalid addresses never change the state, and from EVERY reachable state three rotations of any of the 32 rings converge to exactly that ring.",
    "T_conv is a generous bound; the largest observed/bound ratio is reported in the evidence.", "6 C02"),
  "C18": ("model_checking", "explicit-state BFS over real LiveList / DpScanner state x reference population under all answer patterns at tracked addresses",
-   "BFS over (application state, reference membership, loss budget, sweep) for scanner addresses {0,7,125}; at every probe of a tracked address {0,TS,TS+1,62,125(,2,124)} the environment answers, is silent, loses the reply, or (DP scanner) sends one of 4 invalid replies; probe order 0..125, membership after every probe, exact Discovered/Found/Lost events and idents are compared with the reference; six populations are repeated under a real FdlActiveStation on BusSim.",
+   "BFS over (application state, reference membership, loss budget, sweep) for scanner addresses {0,7,125}; at every probe of a tracked address {0,2,TS,TS+1,62,124,125 (thorough also TS-1,63)} the environment answers (live list: all four station types and non-OK status nibbles), is silent, loses the reply, or (DP scanner) sends one of 4 invalid replies; probe order 0..125, membership after every probe, exact Discovered/Found/Lost events and idents are compared with the reference; six populations are repeated under a real FdlActiveStation on BusSim.",
    "Only the tracked addresses vary; SC as reply to a status request is outside the alphabet.", "6 C18"),
  "C20": ("model_checking", "per-layout BFS over operation sequences of the real PrmBuilder against a reference bit packer",
    "All layouts of 1-2 fields from 12 data types at offsets {0,1} (shared bytes, overlapping multi-byte fields) over 4 constant backgrounds, with boundary defaults, min-max/enum constraints and text tables; all set_prm / set_prm_from_text sequences up to depth 3 (2 for pairs in quick) with boundary and out-of-range values, unknown names and texts; every resulting block is compared with a mask-merge big-endian reference packer, errors must leave the block unchanged.",
@@ -54,17 +54,17 @@ claimed = {
  "C19": ("exploration", "bounded exhaustive enumeration of rendered GSD documents (templates x values x lexical variants), grammar-level mutations at every position, and all short token strings",
    "(a) every statement template with boundary hole values (and the dependency chains PrmText->ExtUserPrmData->Ref, Module->Slot, plus one full document) is rendered by an independent pretty-printer in the product of lexical variants (keyword case, '=' spacing, trailing/full-line comments, LF/CRLF, text before the marker incl. '#', line continuations) and the parsed description is compared field by field; (b) every number/string swap, numeric extreme, unknown data type, dangling reference and deleted '(' ')' '=' '-' or line at every position of the generated documents and of mock.gsd; (c) all token strings up to length 5/6 over 14 token classes and all 1-2 byte raw inputs. Oracle: never unwinds; (a) must be Ok and equal.",
    "Trusted: the independent pretty-printer / expected-value logic; long random texts are not covered.", "6 C19"),
- "C06": ("fault_enumeration", "exhaustive single-fault enumeration (every telegram x fault kind, every corruption window, every crash point x restart variant, claim race offsets) on snapshots of rings of real stations",
+ "C06": ("fault_enumeration", "exhaustive fault enumeration (every telegram x fault kind, every corruption window, every crash point x restart/partial-telegram variant, claim race offsets; thorough: also every pair of faults on telegrams n and n+1..3) on snapshots of rings of real stations under staggered and equal poll schedules",
    "Per scenario a ring of real stations is brought up; from a snapshot every fault of the plan is applied once - drop / truncate / bit flips of EVERY telegram in a window of HSA+3 rotations, a 3-telegram garbling window at every position, a crash of every station at every effective poll (before / after incl. mid-transmission, with and without restart after 2 and 40 slot times), and the cold-start claim race - then the run continues fault-free for T_rec and is judged by the C02 ring predicate over the stability window and by the silence bound.",
-   "One disturbance episode per execution (k=1); collisions are corrupted bytes in BusSim; T_rec from DESIGN 5.4.", "6 C06"),
- "C13": ("model_checking", "exhaustive enumeration of ring configurations x application appetites x TTR x poll patterns (thorough: plus every placement of one poll stall) with a trace oracle for hold time and rotation",
-   "Rings of 2-4 real stations with applications that never / always / every third opportunity send SDN or SRD telegrams to passive responders answering after 11 bit, after Tslot-33 bit or never, for TTR in {256, 2000, default} and three poll patterns; on the trace: at most one application request starts after previous-receipt + TTR (+poll slack), consecutive token receipts are at most TTR + N*(cycle + GAP poll + pass) apart, every application is asked at least once per visit.",
+   "One disturbance episode per execution (quick: one fault; thorough: also two-fault episodes on the Tslot/16 schedules); collisions are corrupted bytes in BusSim; T_rec from DESIGN 5.4.", "6 C06"),
+ "C13": ("model_checking", "exhaustive enumeration of ring configurations (incl. lone stations) x application appetites x TTR x poll patterns incl. equal phases (plus every placement of one poll stall: quick on the explicit-TTR configurations of <=3 stations, thorough everywhere) with a trace oracle for hold time, rotation and starvation",
+   "Rings of 1-4 real stations with applications that never / always / every third opportunity send SDN or SRD telegrams to passive responders answering after 11 bit, after Tslot-33 bit or never, for TTR in {256, 2000, default} and three poll patterns; on the trace: at most one application request starts after previous-receipt + TTR (+poll slack), consecutive token receipts are at most TTR + N*(cycle + GAP poll + pass) apart, every application is asked at least once per visit.",
    "Only evaluated once the ring is stable; configurations outside the latency envelope of DESIGN 5.5 are skipped.", "6 C13"),
  "C12": ("model_checking", "explicit-state BFS of a real FdlActiveStation against a reactive ring environment (GAP part) and an adversarial listener alphabet (reply part), each with a monitor automaton",
-   "(1) For all (TS,HSA) with HSA 2..7 (thorough ..10, and 126), gap factors and initial ring-member sets of <=2, the environment plays the other ring members and answers every GAP poll of the real station with silence / not ready / ready / in ring / slave (BFS over the answers, bounded number of joins); the monitor checks every FDL status request against the reference GAP (never TS, never at or beyond NS), one poll per visit, complete post-claim scan, sweep order, pause of G..G+2 visits, bounded staleness, and that a ready responder gets the next token. (2) BFS over tokens of consistent and inconsistent rotations and status requests from predecessor / others: replies only to requests addressed to TS, within the slot time, 'not ready' until two identical rotations (repeated passes collapsed), 'ready' only to the registered predecessor, 'in ring' iff in the ring.",
-   "The environment is conforming in part (2) (requesters leave the reply slot free); join budget 1/2 per path.", "6 C12"),
+   "(1) For all (TS,HSA) with HSA 2..7 (thorough ..10, and 126), gap factors and initial ring-member sets of <=2, the environment plays the other ring members and answers every GAP poll of the real station with silence / not ready / ready / in ring / slave / silence while a station joins behind the sweep position / silence followed by the loss of the token at the next ring member (BFS over the answers, bounded number of joins and losses); the monitor checks every FDL status request against the reference GAP (never TS, never at or beyond NS), one poll per visit, complete post-claim scan, sweep order, pause of G..G+2 visits, bounded staleness, and that a ready responder gets the next token. (2) BFS over tokens of consistent and inconsistent rotations and status requests from predecessor / others: replies only to requests addressed to TS, within the slot time, 'not ready' until two identical rotations (repeated passes collapsed), 'ready' only to the registered predecessor, 'in ring' iff in the ring.",
+   "The environment is conforming in part (2) (requesters leave the reply slot free) and ring members in part (1) supervise and repeat their token pass like real stations; join / token-loss budget 1/2 per path.", "6 C12"),
  "C15": ("model_checking", "explicit-state BFS of a real FdlActiveStation with scripted probe applications against a reactive environment choosing the peer's behaviour for every request",
-   "All scripts up to length 2/3 over {decline, SRD, SDN, FDL status} for 1 application, all script pairs up to length 2 for 2, all triples of length <=1 for 3 applications (and poll_multi with none), in rings of 1..3 stations; for every request the environment answers correctly, with SC, late, from a foreign source, to a foreign destination, with a request, with a token, or not at all. The oracle reads the call log of the applications and the bus trace: asked only while holding the token and with no reply outstanding, at most one reply/time-out per request on the sending application with the addressed station, exactly one for correct/silent peers (while no stray telegram is around), replies are SC or responses SA=addressed DA=TS, round-robin order, nobody asked after all declined.",
+   "All scripts up to length 2/3 over {decline, SRD, SDN, FDL status} for 1 application, all script pairs up to length 2 for 2, all triples of length <=1 for 3 applications (and poll_multi with none), in rings of 1..3 stations; for every request the environment answers correctly, with SC, late, from a foreign source, to a foreign destination, with a request, with a token, or not at all (thorough: scripts to length 4, up to 4 applications, 3 target rotation times, 2 poll periods). The oracle reads the call log of the applications and the bus trace: asked only while holding the token and with no reply outstanding, at most one reply/time-out per request on the sending application with the addressed station, exactly one for correct/silent peers (while no stray telegram is around), replies are SC or responses SA=addressed DA=TS, round-robin order, nobody asked after all declined.",
    "Call order across applications is reconstructed with a per-thread sequence counter in the probe applications.", "6 C15"),
 }
 not_applicable_reasons = {}
